@@ -9,6 +9,7 @@
   Frames of ANY length; any routing and any per-segment curve.
 -/
 import EEM.Model.PredictFrame
+import EEM.Gen.MaskStatement
 import Mathlib.Tactic.Linarith
 import Mathlib.Algebra.BigOperators.Group.List.Basic
 import Mathlib.Data.Real.Basic
@@ -172,5 +173,28 @@ theorem C07_nanOnly_counterexample :
 
 /-! ### Non-vacuity -/
 example : isClean (α := ℝ) true { t := 0, season := "summer", dow := 1, temperature := .fin 50, observed := .fin 3 } = true := rfl
+
+/-! ### T1: the masking statement as the source has it -/
+
+/-- **the source's masking statement is the one the theorems above are about**: the mask regenerated from
+`DailyModel._predict` is "temperature not finite" (`MaskMode.nonFinite`), it is on by default, no `return` of `_predict`
+comes before it (an early return would skip it), and no call of `_predict` in the daily / billing model classes switches it
+off — so `C07_both_or_neither` and the other `.nonFinite` theorems speak about what `predict()` runs -/
+theorem C07_src_mask_statement :
+    EEM.Gen.MaskStatement.maskMode = .nonFinite ∧ EEM.Gen.MaskStatement.maskDefault = true ∧
+    EEM.Gen.MaskStatement.returnsBeforeMask = 0 ∧
+    (∀ c ∈ EEM.Gen.MaskStatement.predictCalls, c.2.2 = "default" ∨ c.2.2 = "True") ∧
+    (∀ cls ∈ ["DailyModel", "BillingModel", "BillingWeightedModel"],
+        (cls, "predict") ∈ EEM.Gen.MaskStatement.predictCalls.map fun c => (c.1, c.2.1)) := by
+  decide
+
+/-- hence, with the source's own mask mode: every returned row has both values or neither -/
+theorem C07_src_both_or_neither (route : InRow α → List String) (curve : String → α → β)
+    (rows : List (InRow α))
+    (hobs : ∀ r ∈ rows, r.observed.isFin = true ∨ r.observed.isNaN = true)
+    (hroute : ∀ r ∈ rows, isClean true r = true → route r ≠ []) :
+    ∀ o ∈ predictFrame EEM.Gen.MaskStatement.maskMode true route curve rows, o.predicted.isSome = o.observed.isFin := by
+  rw [C07_src_mask_statement.1]
+  exact C07_both_or_neither route curve rows hobs hroute
 
 end EEM.Props.C07
